@@ -76,3 +76,24 @@ def gen_binomial(ctx):
     if tlc.invariant_violated(rr) is None:
         raise fw.Machinery("vacuity: the binomial generator model never reaches its end")
     return {"cfg": cfg, "states": r["distinct"], "all_clauses_hold": True, "optimal_steps": True}
+
+
+def gen_twolevel(ctx):
+    """GenTwoLevel: every interleaving of next()/finalize(k), every consistent finalisation point,
+    every resolution of the step choice, two adjoint passes: no clause fails, every pass takes
+    the sum over blocks of the closed-form optimum (design level, no code)."""
+    cfgs = ["GenTwoLevel_2_1.cfg", "GenTwoLevel_3_1.cfg", "GenTwoLevel_4_2.cfg", "GenTwoLevel_3_0.cfg",
+            "GenTwoLevel_6_1.cfg", "GenTwoLevel_3_1_disk.cfg"]
+    out = []
+    for cfg in cfgs:
+        r = tlc.run("GenTwoLevel", cfg=cfg, timeout=600, workers=8)
+        ctx.add_run("GenTwoLevel/" + cfg, r)
+        if not r["ok"]:
+            raise fw.Machinery(f"the TwoLevel generator model fails at design level ({cfg}): "
+                               f"{tlc.invariant_violated(r)} {r['error']}")
+        out.append({"cfg": cfg, "states": r["distinct"], "all_clauses_hold": True})
+    rr = tlc.run("GenTwoLevel", cfg="GenTwoLevelReach.cfg", timeout=300, workers=4)
+    ctx.add_run("GenTwoLevel/reach", rr)
+    if tlc.invariant_violated(rr) is None:
+        raise fw.Machinery("vacuity: the TwoLevel generator model never reaches a second pass")
+    return out
